@@ -385,6 +385,104 @@ Definition restore_steps_unmarked : list rstep := [RMix; RDone].
 (* OpenRockDB: an interrupted restore is finished first (restore_plan from whatever is there) *)
 Definition open_after_crash (s : rslot) : ddata := if rs_marked s then DNew else rs_data s.
 
+(* ---------- node.GetValidBackupInfo: which peer a snapshot is fetched from ----------
+   A peer is asked over HTTP (checkbackup, body = the raft snapshot) whether it has the backup of
+   exactly the requested (term,index) (server.checkNodeBackup -> IsLocalBackupOK); p_has = it was
+   reached and said yes. Peers with the replica id of the asker are skipped, and a peer on this host
+   with this node's own data root ("old mine"). *)
+
+Record peer := { p_replica : N; p_addr : bytes; p_root : bytes; p_module : bytes; p_has : bool }.
+
+(* path.Join for the simple, non-empty-or-empty operands that occur here *)
+Definition path_join (a b : bytes) : bytes := match a with [] => b | _ => a ++ 47 :: b end.
+
+Definition eligible (local_id : N) (h myroot : bytes) (p : peer) : bool :=
+  negb (p_replica p =? local_id) && p_has p && negb (bytes_eqb (p_addr p) h && bytes_eqb (p_root p) myroot).
+
+(* (syncAddr, syncDir): a peer on this host is copied from its data root unless rsync is forced *)
+Definition source_of (h : bytes) (rsync_local : bool) (ns : bytes) (p : peer) : bytes * bytes :=
+  if bytes_eqb (p_addr p) h then
+    if rsync_local then (p_addr p, path_join (p_module p) ns) else ([], path_join (p_root p) ns)
+  else (p_addr p, path_join (p_module p) ns).
+
+Definition valid_sources (local_id : N) (h myroot : bytes) (rsync_local : bool) (ns : bytes) (peers : list peer) : list (bytes * bytes) :=
+  map (source_of h rsync_local ns) (filter (eligible local_id h myroot) peers).
+
+Definition choose_source (retry : nat) (l : list (bytes * bytes)) : option (bytes * bytes) :=
+  match l with [] => None | _ => nth_error l (Nat.modulo retry (length l)) end.
+
+(* ---------- node/state_machine.go handleReuseOldCheckpoint at the file level ----------
+   The backup directory: checkpoint directories by name, each with the content of its
+   source_node_info file (if any) and its files. GetLatestCheckpoint scans from the newest name down;
+   its match function has a side effect: a directory that is the one about to be transferred
+   (newPath) but comes from another source is removed. The sst files of the checkpoint found are then
+   hard-linked into newPath (CopyFileForHardLink: an existing different file there is unlinked first). *)
+
+Record ckd := { cd_info : option bytes; cd_files : list dirent }.
+Definition bdir := list (bytes * ckd).
+
+Fixpoint bd_lookup (b : bdir) (n : bytes) : option ckd :=
+  match b with [] => None | (m, c) :: r => if bytes_eqb m n then Some c else bd_lookup r n end.
+Definition bd_remove (b : bdir) (n : bytes) : bdir := filter (fun e => negb (bytes_eqb (fst e) n)) b.
+Fixpoint bd_insert (b : bdir) (e : bytes * ckd) : bdir :=
+  match b with
+  | [] => [e]
+  | x :: r => if bytes_ltb (fst e) (fst x) then e :: b else x :: bd_insert r e
+  end.
+
+Definition info_matches (b : bdir) (src : bytes) (n : bytes) : bool :=
+  match bd_lookup b n with
+  | Some c => match cd_info c with Some i => bytes_eqb i src | None => false end
+  | None => false
+  end.
+
+(* the scan of GetLatestCheckpoint with handleReuseOldCheckpoint's match function *)
+Fixpoint reuse_scan (desc : list bytes) (skip : nat) (src newn : bytes) (b : bdir) : option bytes * bdir :=
+  match desc with
+  | [] => (None, b)
+  | c :: r =>
+      if info_matches b src c then
+        match skip with O => (Some c, b) | S k => reuse_scan r k src newn b end
+      else if bytes_eqb c newn then reuse_scan r skip src newn (bd_remove b c)
+      else reuse_scan r skip src newn b
+  end.
+
+(* link one sst of the reused checkpoint into the files of newPath *)
+Definition link_into (files : list dirent) (e : dirent) : list dirent :=
+  let '(n, j) := e in
+  match dir_lookup files n with
+  | Some i => if i =? j then files else dir_insert (dir_remove files n) (n, j)
+  | None => dir_insert files (n, j)
+  end.
+
+Inductive reuse_res := UPanic | UDone (reused : option bytes) (b : bdir).
+
+Definition reuse_plan (b : bdir) (src newn : bytes) (skip : nat) : reuse_res :=
+  let l := glob_dash (map fst b) in
+  if Nat.leb (length l) skip then UDone None b
+  else match go_sort l with
+       | None => UPanic
+       | Some s =>
+           let '(latest, b1) := reuse_scan (rev s) skip src newn b in
+           match latest with
+           | None => UDone None b1
+           | Some ln =>
+               if bytes_eqb ln newn then UDone None b1
+               else
+                 match bd_lookup b1 ln with
+                 | None => UDone None b1
+                 | Some lc =>
+                     let ssts := filter (fun e => is_sst (fst e)) (cd_files lc) in
+                     let old := match bd_lookup b1 newn with Some c => c | None => {| cd_info := None; cd_files := [] |} end in
+                     let nd := {| cd_info := cd_info old; cd_files := fold_left link_into ssts (cd_files old) |} in
+                     match ssts with
+                     | [] => UDone (Some ln) b1          (* nothing to link: newPath is not even created *)
+                     | _ => UDone (Some ln) (bd_insert (bd_remove b1 newn) (newn, nd))
+                     end
+                 end
+           end
+       end.
+
 (* ---------- the value level ---------- *)
 
 Record ckinfo := { ck_val : N; ck_dg : N }.
